@@ -59,9 +59,33 @@ def classify_crash(stderr_text, rc):
     return "exit%s" % rc
 
 
-def run_harness(binary, lines, timeout_s=10, workers=None, env_extra=None):
+RETRY_STATS = {"cases": 0, "ended_when_run_alone": 0}
+
+
+def run_harness(binary, lines, timeout_s=10, workers=None, env_extra=None, _retry=True):
     """lines: list of 'caseid ops...' (caseid unique, no spaces). Returns dict caseid -> result str.
-    A crashed case maps to 'crash <class>'; a timed-out case to 'diverges'."""
+    A crashed case maps to 'crash <class>'; a timed-out case to 'diverges'.
+    A wall-clock limit is load dependent: a case answered `diverges` is run again ALONE (one worker) with six times the limit, and
+    only a case that still does not end keeps the answer (false alarm seen in session 3: a thorough C08 run at load average 70)."""
+    res = _run_harness(binary, lines, timeout_s, workers, env_extra)
+    if _retry:
+        slow = [ln for ln in lines if str(res.get(ln.split(" ", 1)[0], "")).endswith("diverges")]
+        if slow and len(slow) <= 200:
+            again = _run_harness(binary, slow, timeout_s * 6, 1, env_extra)
+            RETRY_STATS["cases"] += len(slow)
+            for ln in slow:
+                cid = ln.split(" ", 1)[0]
+                r = again.get(cid)
+                if r is not None and not str(r).endswith("diverges"):
+                    res[cid] = r
+                    res.pop(cid + "#stderr", None)
+                    if cid + "#stderr" in again:
+                        res[cid + "#stderr"] = again[cid + "#stderr"]
+                    RETRY_STATS["ended_when_run_alone"] += 1
+    return res
+
+
+def _run_harness(binary, lines, timeout_s=10, workers=None, env_extra=None):
     if workers is None:
         workers = min(16, max(1, len(lines) // 200 + 1))
     chunks = [lines[i::workers] for i in range(workers)]
